@@ -52,6 +52,17 @@ EndPass ==
   /\ UNCHANGED <<fg, fmap>>
 FNext == ExpandRule \/ EndPass
 
+\* one whole pass as a function: fold ExpandRule over the rules in order (used by the trace validator)
+RECURSIVE PassFrom(_, _, _, _)
+PassFrom(G, m, i, ch) ==
+  IF i > Len(G.rules) THEN [map |-> m, changed |-> ch]
+  ELSE LET r == G.rules[i]
+           cur == SeqFirst(G, m, r.rhs)
+           old == m[r.lhs]
+           new == [ts |-> old.ts \cup cur.ts, eps |-> old.eps \/ cur.eps]
+       IN PassFrom(G, [m EXCEPT ![r.lhs] = new], i + 1, ch \/ new # old)
+RunPass(G, m) == PassFrom(G, m, 1, FALSE)
+
 \* the map only grows
 FMonotone == [][ \A n \in fg.nts : fmap[n].ts \subseteq fmap'[n].ts /\ (fmap[n].eps => fmap'[n].eps) ]_fvars
 \* never more than the least fixed point
